@@ -150,10 +150,8 @@ func (c *client) Subscribe(serviceID, objectID, actionID uint32) (
 	filter := func(hdr *net.Header) (matched bool, keep bool) {
 		if hdr.Service == serviceID && hdr.Object == objectID &&
 			hdr.Action == actionID {
-			if hdr.Type == net.Error {
-				// unsubscribe on error
-				return true, false
-			}
+			// the handler is removed by the goroutine below: it
+			// owns the handler id, which is reused once released.
 			return true, true
 		}
 		return false, true
@@ -169,6 +167,11 @@ func (c *client) Subscribe(serviceID, objectID, actionID uint32) (
 					return
 				} else if msg.Header.Type == net.Event {
 					events <- msg.Payload
+				} else if msg.Header.Type == net.Error {
+					// unsubscribe on error
+					c.endpoint.RemoveHandler(id)
+					close(events)
+					return
 				}
 			case <-abort:
 				c.endpoint.RemoveHandler(id)
